@@ -21,7 +21,7 @@ from vlib.core import *
 SRCS = ["harness/c14.cpp"]
 WRAP_SRCS = ["harness/c14_wrap.cpp"]
 REPO_CPP = ["babylon/concurrent/*.cpp"]
-LEAN_MODULES = ["Babylon.IdAlloc.Model", "Babylon.IdAlloc.Box", "Babylon.IdAlloc.Pinned", "Babylon.IdAlloc.Sched", "Babylon.IdAlloc.BoxSched",
+LEAN_MODULES = ["Babylon.IdAlloc.Model", "Babylon.IdAlloc.Box", "Babylon.IdAlloc.Pinned", "Babylon.IdAlloc.View", "Babylon.IdAlloc.Sched", "Babylon.IdAlloc.BoxSched",
                 "Babylon.IdAlloc.Lemmas", "Babylon.IdAlloc.LemmasUse", "Babylon.IdAlloc.BoxLemmas", "Babylon.Properties.C14"]
 
 
